@@ -347,11 +347,23 @@ def _hmm(dom: dict, index: int, gene_index: int = 0):
         profile at the same protein coordinates in neighbouring genes are still different hits """
     from antismash.common.hmmscan_refinement import HMMResult
 
-    def inner(hit: dict):
-        return HMMResult(hit["id"], dom["s"], dom["e"], 1e-20, 100.0,
-                         internal_hits=[inner(sub) for sub in hit.get("in") or []])
-    return HMMResult(dom["id"], dom["s"], dom["e"], 10.0 ** -(10 + gene_index), 50.0 + index + 17 * gene_index,
-                     internal_hits=[inner(sub) for sub in dom.get("in") or []])
+    root = HMMResult(dom["id"], dom["s"], dom["e"], 10.0 ** -(10 + gene_index), 50.0 + index + 17 * gene_index)
+
+    def attach(parent, hits: list) -> None:
+        """ bottom-up by default; a hit marked "td" is attached childless first (the way find_subtypes adds the KS
+            subtype and only later the transATor hit below it), the root's names are read, then its children follow """
+        for hit in hits:
+            if hit.get("td"):
+                child = HMMResult(hit["id"], dom["s"], dom["e"], 1e-20, 100.0)
+                parent.add_internal_hits([child])
+                _ = (root.detailed_names, str(root), child.detailed_names)
+                attach(child, hit.get("in") or [])
+                continue
+            child = HMMResult(hit["id"], dom["s"], dom["e"], 1e-20, 100.0)
+            attach(child, hit.get("in") or [])
+            parent.add_internal_hits([child])
+    attach(root, dom.get("in") or [])
+    return root
 
 
 def _motif(hit: dict):
@@ -403,13 +415,20 @@ def _check_reload(module, where: str) -> None:
     from antismash.detection.nrps_pks_domains.module_identification import Module
     saved = module.to_json()
     text = json.dumps(saved)
+    parsed = json.loads(text)
     try:
-        again = Module.from_json(json.loads(text))
+        again = Module.from_json(parsed)
+        second = Module.from_json(parsed)      # the saved form can be read any number of times
     except Exception as err:  # pylint: disable=broad-except
         raise Violation("reload_refused", {"where": where, "module": _describe(module),
                                            "exception": type(err).__name__, "message": str(err)[:300]}) from err
+    if parsed != json.loads(text):
+        raise Violation("reload_consumes_saved_form", {"where": where, "module": _describe(module)})
     if again.to_json() != saved or json.dumps(again.to_json()) != text:
         raise Violation("reload_json", {"where": where, "module": _describe(module)})
+    if second.to_json() != saved or _flags(second) != _flags(again):
+        raise Violation("reload_second_time_differs", {"where": where, "module": _describe(module),
+                                                       "second": _describe(second)})
     before, after = _flags(module), _flags(again)
     if before != after:
         diff = {key: [before[key], after[key]] for key in before if before[key] != after[key]}
